@@ -14,6 +14,7 @@ def tasks(run):
     out = [('program', (name, seed, {})) for (name, seed) in models.programs(run.seed, n)]
     for (name, seed) in models.programs(run.seed + 3, 11):
         out.append(('resolve', (name, seed, 'new_iterate')))
+    out += [('program', ('T_user_lmi', v, {})) for v in (0, 1, 4, 5)]            # LMIs of equal size declared on the problem AND on a function
     out += [('program', ('T_duplicates', v, {})) for v in range(2)]
     out += [('unused_function', (k + (run.seed % 21),)) for k in range(21 if run.tier != 'quick' else 7)]       # a declared, never evaluated function adds nothing          # an object registered twice is sent once per registration
     return out
